@@ -177,6 +177,7 @@ def rule_status(ctx):
             r.check(w is None, "main/success-only-after-count-test", db.loc(m, n), "main can return 0 after processing sources without testing check_fail_cnt")
     # bout_content_matches
     b = db.fn("bout_content_matches", file=UNC)
+    r.names(b, "fm", "report_status")
     falses = [n for n in b.all_nodes() if n["k"] == "asg" and expr_str(b, n["a"][0]) == "is_same"]
     r.check(len(falses) == 2 and all(b.nodes[x["a"][1]].get("v") == 0 for x in falses), "bout_content_matches/two-false-sites", db.loc(b, b.l0),
             "is_same assignments changed: %s" % [expr_str(b, x["i"]) for x in falses])
